@@ -71,9 +71,10 @@ def Mapping.uri (base : String) (m : Mapping) : String :=
 
 def Mapping.verb (m : Mapping) : String :=
   if m.name != "RequestMapping" then (verbOf m.name).getD ""
-  else match m.methodAttr with
-    | some v => (verbOf v).getD ""
-    | none => ""
+  else match m.form, m.methodAttr with
+    | .positional _, _ => ""        -- @RequestMapping("/x") has no method attribute
+    | _, some v => (verbOf v).getD ""
+    | _, none => ""
 
 def bodyType (params : List ParamEv) : String :=
   params.foldl (fun rb p => if p.annos.contains "RequestBody" then p.type else rb) ""
@@ -125,5 +126,294 @@ theorem others_inside (annos : List AnnoEv) : ∀ (st : ASt), (∀ a ∈ annos, 
     have : runEvs st ((a :: rest).map .anno) = runEvs (onAnno st a) (rest.map .anno) := rfl
     rw [this, other_anno_inside st a (h a (by simp)) hc]
     exact ih st (fun x hx => h x (by simp [hx])) hc
+
+/-- a mapping annotation inside a controller class opens a pending entry with the right uri and verb -/
+theorem mapping_inside (st : ASt) (m : Mapping) (hm : isMapping m.name = true)
+    (hc : st.hasEnterClass = true) (hk : st.isController = true) :
+    ∃ st', onAnno st m.ev = st' ∧ st'.hasEnterRest = true ∧ st'.current.uri = m.uri st.baseApiUrl ∧
+      st'.current.httpMethod = m.verb ∧ st'.hasEnterClass = true ∧ st'.isController = true ∧
+      st'.baseApiUrl = st.baseApiUrl ∧ st'.requestBodyClass = st.requestBodyClass ∧ st'.apis = st.apis ∧
+      st'.curPkg = st.curPkg ∧ st'.curClz = st.curClz := by
+  have hname : (m.ev).name = m.name := by
+    unfold Mapping.ev; cases m.form <;> cases m.methodAttr <;> rfl
+  have hnc : (m.name == "RestController" || m.name == "Controller") = false := by
+    simp only [isMapping, Bool.or_eq_true, beq_iff_eq] at hm
+    rcases hm with (((h | h) | h) | h) | h <;> rw [h] <;> decide
+  refine ⟨onAnno st m.ev, rfl, ?_⟩
+  unfold onAnno
+  simp only [hname, hnc, Bool.false_eq_true, ↓reduceIte, hc, Bool.not_true, Bool.false_and, hk, hm, Bool.not_false,
+    listener_facts.2.2.2.2.2, Bool.and_false]
+  unfold Mapping.ev Mapping.uri Mapping.verb
+  by_cases hr : m.name = "RequestMapping"
+  · have hr' : (m.name != "RequestMapping") = false := by simp [hr]
+    cases hf : m.form <;> cases ha : m.methodAttr <;>
+      simp [hr', hr, hf, ha, setVerb, List.foldl, verbOf, hc] <;>
+      (try (cases hs : stripEnds _ <;> simp [hs])) <;>
+      (try (split <;> simp_all))
+  · have hr' : (m.name != "RequestMapping") = true := by simp [hr]
+    cases hf : m.form <;> cases ha : m.methodAttr <;>
+      simp [hr', hr, hf, ha, setVerb, List.foldl, hc] <;>
+      (try (cases hs : stripEnds _ <;> simp [hs])) <;>
+      (try (cases hv : verbOf m.name <;> simp [hv]))
+
+theorem mapping_not_controller (st : ASt) (m : Mapping) (hm : isMapping m.name = true)
+    (hc : st.hasEnterClass = true) (hk : st.isController = false) : onAnno st m.ev = st := by
+  have hname : (m.ev).name = m.name := by
+    unfold Mapping.ev; cases m.form <;> cases m.methodAttr <;> rfl
+  have hnc : (m.name == "RestController" || m.name == "Controller") = false := by
+    simp only [isMapping, Bool.or_eq_true, beq_iff_eq] at hm
+    rcases hm with (((h | h) | h) | h) | h <;> rw [h] <;> decide
+  unfold onAnno
+  simp [hname, hnc, hc, hk]
+
+theorem onMethod_idle (st : ASt) (n : String) (ps : List ParamEv) (h : st.hasEnterRest = false) : onMethod st n ps = st := by
+  unfold onMethod; simp [h]
+
+/-- one member of the class body: the invariant is kept and exactly the expected entry is appended -/
+theorem member_step (st : ASt) (ctrl : Bool) (base pkg cls : String) (apis : List RestAPI) (mem : Member)
+    (hinv : Inv st ctrl base pkg cls apis) (hok : mem.ok) :
+    ∃ st', runEvs st mem.events = .ok st' ∧
+      Inv st' ctrl base pkg cls (apis ++ (if ctrl then expectedOf pkg cls base mem else [])) := by
+  cases mem with
+  | field an =>
+    refine ⟨st, others_inside an st hok hinv.h1, ?_⟩
+    cases ctrl <;> simpa [expectedOf] using hinv
+  | plain an n ps pa =>
+    simp only [Member.ok, List.mem_append] at hok
+    refine ⟨st, ?_, ?_⟩
+    · simp only [Member.events]
+      rw [runEvs_append, runEvs_append, others_inside an st (fun a ha => hok a (Or.inl ha)) hinv.h1]
+      simp only
+      have : runEvs st [Ev.method n ps] = .ok st := by
+        simp [runEvs, onEv, onMethod_idle st n ps hinv.h3]
+      rw [this]
+      exact others_inside pa st (fun a ha => hok a (Or.inr ha)) hinv.h1
+    · cases ctrl <;> simpa [expectedOf] using hinv
+  | handler pre m post n ps pa =>
+    simp only [Member.ok, List.mem_append] at hok
+    obtain ⟨hoth, hmap⟩ := hok
+    simp only [Member.events]
+    rw [runEvs_append, runEvs_append, runEvs_append, runEvs_append,
+      others_inside pre st (fun a ha => hoth a (Or.inl (Or.inl ha))) hinv.h1]
+    simp only
+    cases ctrl with
+    | false =>
+      have h1 : runEvs st [Ev.anno m.ev] = .ok st := by
+        simp [runEvs, onEv, mapping_not_controller st m hmap hinv.h1 hinv.h2]
+      rw [h1]; simp only
+      rw [others_inside post st (fun a ha => hoth a (Or.inl (Or.inr ha))) hinv.h1]
+      simp only
+      have h2 : runEvs st [Ev.method n ps] = .ok st := by
+        simp [runEvs, onEv, onMethod_idle st n ps hinv.h3]
+      rw [h2]; simp only
+      refine ⟨st, others_inside pa st (fun a ha => hoth a (Or.inr ha)) hinv.h1, ?_⟩
+      simpa using hinv
+    | true =>
+      obtain ⟨st1, he, r1, r2, r3, r4, r5, r6, r7, r8, r9, r10⟩ := mapping_inside st m hmap hinv.h1 hinv.h2
+      have h1 : runEvs st [Ev.anno m.ev] = .ok st1 := by simp [runEvs, onEv, he]
+      rw [h1]; simp only
+      rw [others_inside post st1 (fun a ha => hoth a (Or.inl (Or.inr ha))) r4]
+      simp only
+      have h2 : runEvs st1 [Ev.method n ps] = .ok (onMethod st1 n ps) := by simp [runEvs, onEv]
+      rw [h2]; simp only
+      have hrb : st1.requestBodyClass = "" := by rw [r7]; exact hinv.h5
+      have hfin : ∃ st2, onMethod st1 n ps = st2 ∧ st2.hasEnterClass = true ∧ st2.isController = true ∧
+          st2.hasEnterRest = false ∧ st2.baseApiUrl = base ∧ st2.requestBodyClass = "" ∧
+          st2.apis = apis ++ [{ uri := m.uri base, httpMethod := m.verb, methodName := n, requestBodyClass := bodyType ps,
+                                pkg := pkg, cls := cls }] ∧ st2.curPkg = pkg ∧ st2.curClz = cls := by
+        refine ⟨_, rfl, ?_⟩
+        unfold onMethod
+        simp only [r1, ↓reduceIte]
+        have hb : st.baseApiUrl = base := hinv.h4
+        cases hps : ps with
+        | nil =>
+          simp [r4, r5, r6, hb, r8, hinv.h6, r9, hinv.h7, r10, hinv.h8, r2, r3, hrb, bodyType]
+        | cons p rest =>
+          simp [r4, r5, r6, hb, r8, hinv.h6, r9, hinv.h7, r10, hinv.h8, r2, r3, hrb, bodyType]
+      obtain ⟨st2, e2, q1, q2, q3, q4, q5, q6, q7, q8⟩ := hfin
+      rw [e2]
+      refine ⟨st2, others_inside pa st2 (fun a ha => hoth a (Or.inr ha)) q1, ?_⟩
+      exact ⟨q1, q2, q3, q4, q5, by simpa [expectedOf] using q6, q7, q8⟩
+
+/-- the whole class body -/
+theorem body_exact (ctrl : Bool) (base pkg cls : String) : ∀ (mems : List Member) (st : ASt) (apis : List RestAPI),
+    Inv st ctrl base pkg cls apis → (∀ m ∈ mems, m.ok) →
+    ∃ st', runEvs st (mems.flatMap Member.events) = .ok st' ∧
+      Inv st' ctrl base pkg cls (apis ++ (if ctrl then mems.flatMap (expectedOf pkg cls base) else [])) := by
+  intro mems
+  induction mems with
+  | nil => intro st apis h _; exact ⟨st, rfl, by cases ctrl <;> simpa using h⟩
+  | cons m rest ih =>
+    intro st apis h hok
+    obtain ⟨st1, e1, i1⟩ := member_step st ctrl base pkg cls apis m h (hok m (by simp))
+    obtain ⟨st2, e2, i2⟩ := ih st1 _ i1 (fun x hx => hok x (by simp [hx]))
+    refine ⟨st2, ?_, ?_⟩
+    · rw [List.flatMap_cons, runEvs_append, e1]; exact e2
+    · cases ctrl <;> simpa [List.flatMap_cons, List.append_assoc] using i2
+
+/-- base path contributed by the class-level annotations, whatever their order -/
+def baseAfter (annos : List AnnoEv) (b0 : String) : String :=
+  annos.foldl (fun b a => (baseOf { baseApiUrl := b } a).baseApiUrl) b0
+
+def hasCtrl (annos : List AnnoEv) : Bool := annos.any fun a => isCtrlName a.name
+
+def valueStep (s : ASt) (kv : String × String) : ASt :=
+  if kv.1 == "value" then (match stripEnds kv.2 with | some t => { s with baseApiUrl := t } | none => s) else s
+
+theorem foldl_value_fields (kvs : List (String × String)) : ∀ (s1 s2 : ASt), s1.baseApiUrl = s2.baseApiUrl →
+    (kvs.foldl valueStep s1).baseApiUrl = (kvs.foldl valueStep s2).baseApiUrl ∧
+    (kvs.foldl valueStep s1).hasEnterClass = s1.hasEnterClass ∧ (kvs.foldl valueStep s1).isController = s1.isController ∧
+    (kvs.foldl valueStep s1).hasEnterRest = s1.hasEnterRest ∧ (kvs.foldl valueStep s1).requestBodyClass = s1.requestBodyClass ∧
+    (kvs.foldl valueStep s1).apis = s1.apis ∧ (kvs.foldl valueStep s1).curPkg = s1.curPkg ∧
+    (kvs.foldl valueStep s1).curClz = s1.curClz := by
+  induction kvs with
+  | nil => intro s1 s2 h; simp [h]
+  | cons kv rest ih =>
+    intro s1 s2 h
+    simp only [List.foldl_cons]
+    have key : (valueStep s1 kv).baseApiUrl = (valueStep s2 kv).baseApiUrl ∧
+        (valueStep s1 kv).hasEnterClass = s1.hasEnterClass ∧ (valueStep s1 kv).isController = s1.isController ∧
+        (valueStep s1 kv).hasEnterRest = s1.hasEnterRest ∧ (valueStep s1 kv).requestBodyClass = s1.requestBodyClass ∧
+        (valueStep s1 kv).apis = s1.apis ∧ (valueStep s1 kv).curPkg = s1.curPkg ∧ (valueStep s1 kv).curClz = s1.curClz := by
+      unfold valueStep
+      by_cases hv : (kv.1 == "value") = true
+      · simp only [hv, ↓reduceIte]
+        cases stripEnds kv.2 <;> simp [h]
+      · simp only [hv, Bool.false_eq_true, ↓reduceIte]
+        simp [h]
+    obtain ⟨k1, k2, k3, k4, k5, k6, k7, k8⟩ := key
+    obtain ⟨r1, r2, r3, r4, r5, r6, r7, r8⟩ := ih (valueStep s1 kv) (valueStep s2 kv) k1
+    exact ⟨r1, r2.trans k2, r3.trans k3, r4.trans k4, r5.trans k5, r6.trans k6, r7.trans k7, r8.trans k8⟩
+
+theorem baseOf_fields (st : ASt) (a : AnnoEv) :
+    (baseOf st a).baseApiUrl = (baseOf { baseApiUrl := st.baseApiUrl } a).baseApiUrl ∧
+    (baseOf st a).hasEnterClass = st.hasEnterClass ∧ (baseOf st a).isController = st.isController ∧
+    (baseOf st a).hasEnterRest = st.hasEnterRest ∧ (baseOf st a).requestBodyClass = st.requestBodyClass ∧
+    (baseOf st a).apis = st.apis ∧ (baseOf st a).curPkg = st.curPkg ∧ (baseOf st a).curClz = st.curClz := by
+  unfold baseOf
+  split
+  · cases a.args with
+    | none => simp
+    | positional t => simp only; cases stripEnds t <;> simp
+    | pairs kvs =>
+      simp only
+      exact foldl_value_fields kvs st { baseApiUrl := st.baseApiUrl } rfl
+  · simp
+
+/-- the class-level annotations: only the controller flag and the base path change -/
+theorem class_annos (annos : List AnnoEv) : ∀ (st : ASt), st.hasEnterClass = false →
+    ∃ st', runEvs st (annos.map .anno) = .ok st' ∧ st'.hasEnterClass = false ∧
+      st'.isController = (st.isController || hasCtrl annos) ∧ st'.baseApiUrl = baseAfter annos st.baseApiUrl ∧
+      st'.hasEnterRest = st.hasEnterRest ∧ st'.requestBodyClass = st.requestBodyClass ∧ st'.apis = st.apis ∧
+      st'.curPkg = st.curPkg ∧ st'.curClz = st.curClz := by
+  induction annos with
+  | nil => intro st h; exact ⟨st, rfl, h, by simp [hasCtrl], rfl, rfl, rfl, rfl, rfl, rfl⟩
+  | cons a rest ih =>
+    intro st h
+    have hstep : onAnno st a = baseOf (if isCtrlName a.name then { st with isController := true } else st) a := by
+      unfold onAnno
+      have : ((if (a.name == "RestController" || a.name == "Controller") = true then { st with isController := true } else st).hasEnterClass) = false := by
+        split <;> simpa using h
+      simp only [this, Bool.not_false, listener_facts.2.2.2.2.1, Bool.and_self, ↓reduceIte, isCtrlName]
+      rfl
+    have hrun : runEvs st ((a :: rest).map .anno) = runEvs (onAnno st a) (rest.map .anno) := rfl
+    rw [hrun, hstep]
+    generalize hst1 : (if isCtrlName a.name then { st with isController := true } else st) = st1
+    have f := baseOf_fields st1 a
+    have h1 : st1.hasEnterClass = false := by subst hst1; split <;> simpa using h
+    obtain ⟨st', e, q1, q2, q3, q4, q5, q6, q7, q8⟩ := ih (baseOf st1 a) (by rw [f.2.1]; exact h1)
+    refine ⟨st', e, q1, ?_, ?_, ?_, ?_, ?_, ?_, ?_⟩
+    · rw [q2, f.2.2.1]; subst hst1
+      cases hc : isCtrlName a.name <;> simp [hc, hasCtrl, List.any_cons, Bool.or_assoc]
+    · rw [q3, f.1]; subst hst1
+      simp only [baseAfter, List.foldl_cons]
+      split <;> rfl
+    · rw [q4, f.2.2.2.1]; subst hst1; split <;> rfl
+    · rw [q5, f.2.2.2.2.1]; subst hst1; split <;> rfl
+    · rw [q6, f.2.2.2.2.2.1]; subst hst1; split <;> rfl
+    · rw [q7, f.2.2.2.2.2.2.1]; subst hst1; split <;> rfl
+    · rw [q8, f.2.2.2.2.2.2.2]; subst hst1; split <;> rfl
+
+/-- a conventional controller file -/
+structure CFile where
+  pkg : String
+  imports : List String
+  classAnnos : List AnnoEv
+  name : String
+  members : List Member
+
+def CFile.events (f : CFile) : List Ev :=
+  [.pkg f.pkg] ++ f.imports.map .imp ++ f.classAnnos.map .anno ++ [.enterClass f.name ""] ++
+    f.members.flatMap Member.events ++ [.exitClass]
+
+/-- what the statement asks for: one entry per handler of a controller class, nothing otherwise -/
+def CFile.expected (f : CFile) : List RestAPI :=
+  if hasCtrl f.classAnnos then f.members.flatMap (expectedOf f.pkg f.name (baseAfter f.classAnnos "")) else []
+
+theorem imports_noop (imps : List String) (st : ASt) : runEvs st (imps.map .imp) = .ok st := by
+  induction imps with
+  | nil => rfl
+  | cons i rest ih => exact ih
+
+/-- FILE EXACTNESS, from any incoming listener state -/
+theorem file_exact (f : CFile) (hok : ∀ m ∈ f.members, m.ok) (st0 : ASt) :
+    ∃ st', runFile st0 f.events = .ok st' ∧ st'.apis = f.expected := by
+  have hfile : runFile st0 f.events = runEvs (newListener st0) f.events := rfl
+  rw [hfile]
+  simp only [CFile.events]
+  rw [runEvs_append, runEvs_append, runEvs_append, runEvs_append, runEvs_append]
+  have hpkg : runEvs (newListener st0) [Ev.pkg f.pkg] = .ok { newListener st0 with curPkg := f.pkg } := rfl
+  rw [hpkg]; simp only
+  rw [imports_noop]; simp only
+  have hn : ({ newListener st0 with curPkg := f.pkg } : ASt).hasEnterClass = false := by
+    simp [newListener, listener_facts.1]
+  obtain ⟨s1, e1, q1, q2, q3, q4, q5, q6, q7, q8⟩ := class_annos f.classAnnos _ hn
+  rw [e1]; simp only
+  have henter : runEvs s1 [Ev.enterClass f.name ""] = .ok { s1 with hasEnterClass := true, curClz := f.name, curImplements := "" } := rfl
+  rw [henter]; simp only
+  have hinv : Inv { s1 with hasEnterClass := true, curClz := f.name, curImplements := "" } (hasCtrl f.classAnnos)
+      (baseAfter f.classAnnos "") f.pkg f.name [] := by
+    refine ⟨rfl, ?_, ?_, ?_, ?_, ?_, ?_, rfl⟩
+    · simp [q2, newListener]
+    · simp [q4, newListener, listener_facts.2.1]
+    · simp [q3, newListener, listener_facts.2.2.1]
+    · simp [q5, newListener, listener_facts.2.2.2.1]
+    · simp [q6, newListener]
+    · simp [q7]
+  obtain ⟨s2, e2, i2⟩ := body_exact (hasCtrl f.classAnnos) (baseAfter f.classAnnos "") f.pkg f.name f.members _ [] hinv hok
+  rw [e2]; simp only
+  refine ⟨{ s2 with hasEnterClass := false }, rfl, ?_⟩
+  simp only [CFile.expected]
+  rw [i2.h6]
+  cases hasCtrl f.classAnnos <;> simp
+
+/-- INDEPENDENCE (API clause of C07): the entries of a file do not depend on the state left behind by
+    any files scanned before it -/
+theorem file_independent (f : CFile) (hok : ∀ m ∈ f.members, m.ok) (st1 st2 : ASt) :
+    (runFile st1 f.events).toOption.map (·.apis) = (runFile st2 f.events).toOption.map (·.apis) := by
+  obtain ⟨a, ha, ea⟩ := file_exact f hok st1
+  obtain ⟨b, hb, eb⟩ := file_exact f hok st2
+  rw [ha, hb]; simp [Except.toOption, ea, eb]
+
+/-- the base path for the three shapes the statement names: no class mapping / positional / value= -/
+theorem base_absent (annos : List AnnoEv) (h : ∀ a ∈ annos, a.name ≠ "RequestMapping") : baseAfter annos "" = "" := by
+  unfold baseAfter
+  induction annos with
+  | nil => rfl
+  | cons a rest ih =>
+    simp only [List.foldl_cons]
+    have : (baseOf { baseApiUrl := "" } a).baseApiUrl = "" := by
+      have hn : (a.name == "RequestMapping") = false := by simpa using h a (by simp)
+      simp [baseOf, hn]
+    rw [this]
+    exact ih (fun x hx => h x (by simp [hx]))
+
+-- (tests) the listener on a concrete controller, mapping written BEFORE the controller annotation
+def demoFile : CFile :=
+  CFile.mk "p" [] [{ name := "RequestMapping", args := .positional "\"/api\"" }, { name := "RestController", args := .none }] "C"
+    [.handler [] (Mapping.mk "GetMapping" (.value "\"/x\"") none) [] "h" [{ annos := ["RequestBody"], type := "Dto", name := "d" }] [],
+     .plain [] "helper" [] []]
+#guard (runFile {} demoFile.events).toOption.map (·.apis) =
+  some [{ uri := "/api/x", httpMethod := "GET", methodName := "h", requestBodyClass := "Dto", pkg := "p", cls := "C" }]
 
 end CocaVerif.Props.C12
